@@ -593,6 +593,8 @@ where
     fn inner_next(&mut self) -> LexResult {
         // top loop, keep on processing, until we have something pending.
         while self.pending.is_empty() {
+            #[cfg(rustpython_parser_verif)]
+            crate::verif::step(crate::verif::STEP_LEXER_LOOP);
             // Detect indentation levels
             if self.at_begin_of_line {
                 self.handle_indentations()?;
@@ -1204,6 +1206,8 @@ where
 
     // Helper function to go to the next character coming up.
     fn next_char(&mut self) -> Option<char> {
+        #[cfg(rustpython_parser_verif)]
+        crate::verif::step(crate::verif::STEP_LEXER_CHAR);
         let mut c = self.window[0];
         self.window.slide();
         match c {
